@@ -4,7 +4,7 @@ from .report import VERIF
 
 if __name__ == "__main__":
     rows = []
-    for d in sorted((VERIF / "seeded").glob("*")):
+    for d in sorted(x for x in (VERIF / "seeded").glob("*") if (x / "meta.json").exists()):
         m = json.loads((d / "meta.json").read_text())
         c = m.get("checks", {})
         own = c.get("own_property_check", {})
@@ -22,7 +22,7 @@ if __name__ == "__main__":
     byround = collections.Counter()
     for r in rows:
         k = int(r[0].split("-m")[1])
-        rnd = 1 if k <= 3 else 2 if k <= 6 else 3 if k <= 9 else 4
+        rnd = (k + 2) // 3
         byround[(rnd, r[2].split(" ")[0])] += 1
     print()
     for k in sorted(byround):
